@@ -92,6 +92,11 @@ impl Array6 {
         1 << self.lg_config_k
     }
 
+    /// Replaces the estimator state by that of another sketch holding the same registers.
+    pub(super) fn copy_estimator_from(&mut self, other: &HipEstimator) {
+        self.estimator = other.clone();
+    }
+
     /// Whether the HIP accumulator is invalid (the sketch is a merge result).
     pub(super) fn is_out_of_order(&self) -> bool {
         self.estimator.is_out_of_order()
